@@ -28,6 +28,8 @@ ASSUMPTIONS = [
 
 def site_class(s):
     """Everything that distinguishes what a call site computes (its input shape included)."""
+    if s[0] in ("idf", "pick2"):
+        return (s[0],)
     if s[0] in ("gc", "p", "gate"):
         # the constant / literal / flags are *arguments*: one definition may serve every site as long as each call node passes its own
         # values (the numeric oracle decides); gc with the scalar constants has another operand shape than with the vectors
@@ -49,6 +51,9 @@ def history_strategy():
         st.tuples(st.just("p"), st.sampled_from([2.0, 4.0, 0.5])).map(list),
         st.tuples(st.just("gate"), st.sampled_from(["ds", "sd"])).map(list),
         # a dtype-agnostic function called on equal shapes of different element types / widths
+        # functions whose result *is* one of their arguments
+        st.tuples(st.just("idf")).map(list),
+        st.tuples(st.just("pick2"), st.sampled_from([0.5, 2.0])).map(list),
         st.tuples(st.just("mag"), st.sampled_from(["f32", "i32", "i16", "i8"])).map(list),  # float16: open finding C03-abs-after-astype-float16
     )
     base = st.one_of(blocks.site_strategy(), blocks.site_strategy(), extra)
@@ -77,6 +82,8 @@ def history_strategy():
                 alt[1] = {2.0: 4.0, 4.0: 0.5, 0.5: 2.0}[src[1]]
             elif src[0] == "gate":
                 alt[1] = "sd" if src[1] == "ds" else "ds"
+            elif src[0] == "pick2":
+                alt[1] = 2.5 - src[1]
             elif src[0] == "mag":
                 alt[1] = {"f32": "i32", "i32": "i16", "i16": "i32", "i8": "i16"}[src[1]]
             elif src[0] == "fn":
@@ -104,6 +111,10 @@ def build(history, variant):
                 acc = g(acc, jnp.asarray(blocks.CONSTS[s[1]]))
             elif s[0] == "p":
                 acc = {"plain": blocks.p_plain, "fn": blocks.p_fn, "uniq": blocks.p_uniq}[variant](acc, s[1])
+            elif s[0] == "idf":
+                acc = {"plain": blocks.idf_plain, "fn": blocks.idf_fn, "uniq": blocks.idf_uniq}[variant](acc) * 1.25
+            elif s[0] == "pick2":
+                acc = acc + {"plain": blocks.pick2_plain, "fn": blocks.pick2_fn, "uniq": blocks.pick2_uniq}[variant](acc, acc * s[1]) * 0.5
             elif s[0] == "mag":
                 mg = {"plain": blocks.mag_plain, "fn": blocks.mag_fn, "uniq": blocks.mag_uniq}[variant]
                 # "f32" means the default float width (explicit float32 in a double-precision export is C09's subject, D15)
